@@ -1,16 +1,17 @@
-(* Props/C02Known.v — refutations: for each flag claimed `true` in Actual/MagicActual.v a concrete file on which
-   the faithful model differs from the specification (closed by vm_compute).  The same files are in corpus/C02
-   and are replayed on the implementation on every run. *)
+(* Props/C02Known.v — refutations: for each finding still listed as known a concrete file on which the faithful model
+   differs from the specification (closed by vm_compute); for each finding recorded as fixed a regression theorem: the old
+   witness now meets the specification under the faithful model (which reads the repaired tables from the source).
+   The same files are in corpus/C02 and are replayed on the implementation on every run. *)
 From Coq Require Import ZArith.
 From TL Require Import Lib.Base Lib.GenTypes Gen.MagicGen Model.MagicNum Model.Magic Model.MagicSpec Model.MagicRun Actual.MagicActual.
 
 Definition w_cfg : mconfig := mk_cfg (Some [(7, 0)%Z]) None None.
 Definition one_site (name : string) (k : skind) (s : site) : file := mk_file name [mk_scope k None [] [s]].
 
-(* flag = True  is reported as "Magic number True" *)
+(* flag = True  was reported as "Magic number True" (fixed: a2903c3) *)
 Definition w_bool : file := one_site "/case.py" SFunc (mk_site CAssign "flag" [LBool true] 2).
-Theorem C02_py_bool_refuted : report MPy magic_actual w_cfg w_bool <> spec_report MPy w_cfg w_bool.
-Proof. vm_compute. discriminate. Qed.
+Theorem C02_py_bool_fixed_regression : report MPy magic_actual w_cfg w_bool = spec_report MPy w_cfg w_bool.
+Proof. vm_compute. reflexivity. Qed.
 
 (* OFFSET = -300 *)
 Definition w_neg : file := one_site "/case.py" STop (mk_site CUpperNeg "OFFSET" [LInt RDec [[3;0;0]] false ""] 1).
@@ -28,25 +29,25 @@ Definition w_tuple : file :=
 Theorem C02_py_upper_tuple_refuted : report MPy magic_actual w_cfg w_tuple <> spec_report MPy w_cfg w_tuple.
 Proof. vm_compute. discriminate. Qed.
 
-(* let val = 0xFE;  is not reported *)
+(* let val = 0xFE;  was not reported (fixed: bd88986) *)
 Definition w_hex_e : file := one_site "/case.ts" STop (mk_site CAssign "val" [LInt RHex [[15;14]] true ""] 1).
-Theorem C02_ts_hex_e_refuted : report MTs magic_actual w_cfg w_hex_e <> spec_report MTs w_cfg w_hex_e.
-Proof. vm_compute. discriminate. Qed.
+Theorem C02_ts_hex_e_fixed_regression : report MTs magic_actual w_cfg w_hex_e = spec_report MTs w_cfg w_hex_e.
+Proof. vm_compute. reflexivity. Qed.
 
-(* let val = 10n;  is not reported *)
+(* let val = 10n;  was not reported (fixed: bd88986) *)
 Definition w_bigint : file := one_site "/case.ts" STop (mk_site CAssign "val" [LInt RDec [[1;0]] false "n"] 1).
-Theorem C02_ts_bigint_refuted : report MTs magic_actual w_cfg w_bigint <> spec_report MTs w_cfg w_bigint.
-Proof. vm_compute. discriminate. Qed.
+Theorem C02_ts_bigint_fixed_regression : report MTs magic_actual w_cfg w_bigint = spec_report MTs w_cfg w_bigint.
+Proof. vm_compute. reflexivity. Qed.
 
 (* contest_data.ts: "test_" occurs in the path, the file is treated as test code *)
 Definition w_marker : file := one_site "/contest_data.ts" STop (mk_site CAssign "val" [LInt RDec [[3;0;0]] false ""] 1).
 Theorem C02_ts_test_marker_refuted : report MTs magic_actual w_cfg w_marker <> spec_report MTs w_cfg w_marker.
 Proof. vm_compute. discriminate. Qed.
 
-(* let val = 0x1f32;  is reported as 1 *)
+(* let val = 0x1f32;  was reported as 1 (fixed: 7f3f841) *)
 Definition w_clash : file := one_site "/case.rs" SFunc (mk_site CAssign "val" [LInt RHex [[1;15;3;2]] false ""] 2).
-Theorem C02_rs_hex_suffix_clash_refuted : report MRs magic_actual w_cfg w_clash <> spec_report MRs w_cfg w_clash.
-Proof. vm_compute. discriminate. Qed.
+Theorem C02_rs_hex_suffix_clash_fixed_regression : report MRs magic_actual w_cfg w_clash = spec_report MRs w_cfg w_clash.
+Proof. vm_compute. reflexivity. Qed.
 
 (* each witness is an admissible input, and switching its flag off repairs it *)
 Theorem C02_witnesses_admissible :
